@@ -446,3 +446,32 @@ package generator
 //@   ensures [C10,C13] file-part: index_rune(t.Ref, "#") != 0 - 1 && result2 == nil ==> result1 == substr(t.Ref, 0, index_rune(t.Ref, "#"))
 //@   ensures [C10,C13] current-spelling: index_rune(t.Ref, "#") != 0 - 1 && defs_prefix(t) ==> result0 == substr(ref_scope(t), 7, len(ref_scope(t)))
 //@   ensures [C10,C13] legacy-spelling: index_rune(t.Ref, "#") != 0 - 1 && !defs_prefix(t) && legacy_prefix(t) ==> result0 == substr(ref_scope(t), 13, len(ref_scope(t)))
+
+// ---- which unmarshalers are generated (New) -------------------------------------
+// JSON always; YAML exactly when ExtraImports is set (C16: without
+// --extra-imports no YAML code or import appears).
+//@ func New
+//@   props C16 C17
+//@   option shape-zero config.
+//@   option noframe
+//@   ensures [C16] json-first: result1 == nil && len(result0.formatters) >= 1 && dyn(result0.formatters[0]) == "*generator.jsonFormatter"
+//@   ensures [C16,C17] yaml-iff-extra-imports: len(result0.formatters) == (config.ExtraImports ? 2 : 1) && (len(result0.formatters) == 2 ==> dyn(result0.formatters[1]) == "*generator.yamlFormatter")
+//@   ensures [C16] options-carried: result0.config.OnlyModels == config.OnlyModels && result0.config.MinSizedInts == config.MinSizedInts && result0.config.StructNameFromTitle == config.StructNameFromTitle
+
+// ---- adding the unmarshal methods and their imports (generateUnmarshaler) -------
+// Abstract validators (hasError symbolic), at most 2. With --only-models nothing
+// is added: no method, no import (C16). Otherwise one method per formatter, the
+// formatters' own imports, and "fmt" exactly when some validator's fragment
+// returns fmt.Errorf (hasError) — a missing or an unused import both break the
+// build (C01).
+//@ func (*schemaGenerator).generateUnmarshaler
+//@   props C16 C01 C17
+//@   option inline (*jsonFormatter).generate (*yamlFormatter).generate
+//@   shape g = sgen()
+//@   shape decl = decl(T,none)
+//@   shape validators = absvals(0) | absvals(1) | absvals(2)
+//@   assigns *g.output.file
+//@   ensures [C16] only-models-adds-nothing: g.config.OnlyModels ==> len(g.output.file.Package.Decls) == 0 && len(g.output.file.Package.Imports) == 0
+//@   ensures [C16,C17] one-method-per-formatter: !g.config.OnlyModels ==> len(g.output.file.Package.Decls) == 2 && has_import(g, "encoding/json") && has_import(g, "gopkg.in/yaml.v3")
+//@   ensures [C01] fmt-iff-some-fragment-returns-errors: !g.config.OnlyModels ==> (has_import(g, "fmt") <==> (len(validators) >= 1 && abs_has_error(0)) || (len(validators) >= 2 && abs_has_error(1)))
+//@   ensures [C01] no-stray-import: !g.config.OnlyModels ==> !has_import(g, "errors") && !has_import(g, "regexp") && !has_import(g, "math")
